@@ -207,7 +207,8 @@ class SystemBlueprint(yamlize.Object):
 
             # TODO: We should allow for non-Assembly objects/geometries to be loaded into the grid.
             #       For instance, an ex-core grid may define ducts, not just Assemblies.
-            newAssembly = bp.constructAssem(cs, specifier=aTypeID)
+            # specifiers of an explicit list may be parsed as numbers; designs are keyed by strings
+            newAssembly = bp.constructAssem(cs, specifier=str(aTypeID))
 
             i, j = locationInfo
             loc = container.spatialGrid[i, j, 0]
